@@ -412,7 +412,7 @@ package raft
 //@   ensures [voter-only] !old(r.configuration.IsVoter[r.id]) ==> r.state == old(r.state) && r.currentTerm == old(r.currentTerm) && r.votedFor == old(r.votedFor)
 //@   ensures [quiet] now - old(r.lastContact) < r.options.electionTimeout ==> r.state == old(r.state) && r.currentTerm == old(r.currentTerm) && r.votedFor == old(r.votedFor)
 //@   ensures [leader-keeps] old(r.state) == Leader || old(r.state) == Shutdown ==> r.state == old(r.state) && r.currentTerm == old(r.currentTerm)
-//@   ensures [term-bump] r.currentTerm != old(r.currentTerm) ==> r.currentTerm == old(r.currentTerm) + 1 && r.votedFor == r.id && (old(r.state) == Candidate || old(singleMember(r)))
+//@   ensures [term-bump] r.currentTerm != old(r.currentTerm) ==> r.currentTerm == old(r.currentTerm) + 1 && r.votedFor == r.id && old(singleMember(r))
 //@   ensures [I7] persTerm == r.currentTerm && persVote == r.votedFor
 //@   ensures [G2] r.currentTerm == old(r.currentTerm) && old(r.votedFor) != "" ==> r.votedFor == old(r.votedFor)
 //@   ensures [leader-entry] r.state == Leader && old(r.state) != Leader ==> r.votedFor == r.id && r.currentTerm == old(r.currentTerm) + 1
@@ -427,7 +427,7 @@ package raft
 //@   release s1 [truthful] request.CandidateID == r.id && request.LastLogIndex == Llast && request.LastLogTerm == Lterm[Llast] && request.Prevote == prevote && (prevote ==> request.Term == r.currentTerm + 1) && (!prevote ==> request.Term == r.currentTerm)
 //@   release s1 [voter] r.configuration.IsVoter[id] && r.configuration.IsVoter[r.id]
 //@   at before-assign *votes assert [count] response.VoteGranted && err == nil && r.currentTerm <= request.Term && request.Prevote == prevote
-//@   at assign r.state assert [candidate-after-prevote] cnt(dom(r.configuration.IsVoter), vals(r.configuration.IsVoter)) < 2 * *votes
+//@   at call r.becomeCandidate assert [candidate-after-prevote] prevote && r.state == PreCandidate && request.Term == r.currentTerm + 1 && cnt(dom(r.configuration.IsVoter), vals(r.configuration.IsVoter)) < 2 * *votes
 //@   at call r.becomeLeader assert [becomeLeader.entry] !prevote && r.state == Candidate && request.Term == r.currentTerm && 2 * *votes > cntVoters(r.configuration)
 
 //@ func Raft.becomeLeader
